@@ -120,12 +120,15 @@ def make(shape: Dict[str, Any]) -> Any:
         loop.advance_by(ctx.int('register_at', 0, shape.get('register_max', 300)))
         svc = Svc('S1', T1, N1, 'alpha.local.', 80, [V4A], [])
         info = svc.info()
+        if shape.get('second_service'):
+            # another service of the same host, registered long ago (directly in the registry)
+            za.registry.async_add(Svc('S2', T1, 'Beta._http._tcp.local.', 'alpha.local.', 81, [V4A], []).info())
         reg = loop.create_task(za.async_register_service(info))
         started = loop.now_ms
         if not shape.get('browser_first', True):
             loop.advance_by(ctx.int('browse_at', 0, 1500))
             AsyncServiceBrowser(zb, T1, listener=L(loop, log, lookups))
-        loop.advance_to(started + 6000)
+        loop.advance_to(started + (ctx.int('withdraw_after', 900, 1800) if shape.get('early_withdraw') else 6000))
         if ctx.twin:
             return
         ctx.check(not loop.callback_exceptions and not loop.task_exceptions, f'exception: {(loop.callback_exceptions + loop.task_exceptions)[:1]!r}')
@@ -135,7 +138,7 @@ def make(shape: Dict[str, Any]) -> Any:
         ctx.check(not [e for e in log if e[1] == 'Removed'], 'browser reported Removed although the service is registered')
         for linfo, task in lookups:
             ctx.check(task.done() and task._res is True, 'lookup from the Added callback did not resolve the service')
-            if task.done() and task._res is True:
+            if task.done() and task._res is True and linfo.name == N1:
                 ctx.check(linfo.port == 80 and linfo.server == 'alpha.local.' and [a.packed for a in linfo._ipv4_addresses] == [V4A], 'lookup resolved wrong host / port / addresses')
         # withdrawal
         if shape.get('drop_after_withdraw') is not None:
@@ -145,6 +148,8 @@ def make(shape: Dict[str, Any]) -> Any:
         loop.advance_to(withdrawn + 3000)
         removed = [e for e in log if e[1] == 'Removed' and e[2] == N1]
         ctx.check(len(removed) == 1, f'browser reported Removed {len(removed)} times after the service was withdrawn')
+        ctx.check(len([e for e in log if e[1] == 'Added' and e[2] == N1]) == 1, 'the withdrawn service was reported Added again')
+        ctx.check(log and [e for e in log if e[2] == N1][-1][1] == 'Removed', 'the browser ends up listing a withdrawn service')
 
     return fn
 
@@ -155,6 +160,7 @@ def obligations(tier: str) -> List[Obligation]:
         shapes[f'drop-{k}'] = {'drop': k, 'symbolic': [k + 1] if tier == 'quick' else [k + 1, k + 2]}
     for j in range(0, 3):
         shapes[f'drop-goodbye-{j}'] = {'drop_after_withdraw': j, 'symbolic': [1]}
+    shapes['two-services-early-withdraw'] = {'second_service': True, 'early_withdraw': True, 'symbolic': []}
     if tier == 'thorough':
         shapes['late-browser'] = {'browser_first': False, 'symbolic': [2]}
     return [Obligation(f'link[{k}]', make(v), 'link', {'name': k, **v}, timeout=300 if tier == 'quick' else 1200) for k, v in shapes.items()]
